@@ -796,6 +796,13 @@ def rules(rep, m):
     siftrules.check_scans(rep, r9, m)
 
 
+    # R-C02-12 -----------------------------------------------------------
+    r12 = rep.rule("R-C02-12", "re-keying an entry restores the heap order in every situation: after the new keys are stored the "
+                   "entry is sifted up whenever they sort before the parent's and down whenever they sort after a child's - "
+                   "every path of cmi_hashheap_reprioritize is run over all scenarios of a small heap model (size, position, "
+                   "direction of the change; the slot a position-1 entry would take for its parent is the scratch slot 0)", floor=1)
+    siftrules.check_reposition(rep, r12, m)
+
     # R-C02-11 -----------------------------------------------------------
     r11 = rep.rule("R-C02-11", "initialize establishes the empty structure whatever the record held before (reset = terminate + "
                    "initialize on the same record; the classes built on the hashheap are terminated and initialised again by "
